@@ -1584,9 +1584,6 @@ func TestVS_EventCodec(t *testing.T) {
 						case "run":
 							o = ecExecRun(jc, bi, steps, listed)
 						case "hs", "hc":
-							if jc.Danger {
-								continue
-							}
 							o = ecExecHs(jc, bi, steps, listed, job.Token)
 						default:
 							continue
